@@ -8,6 +8,7 @@ caller so that every branch the reference cares about is decided."""
 from .core import Anchor
 from .tree import int_of, is_node, path_of, show, unblock, walk
 
+FALLBACK_FACTORY = None     # set by rules.progx: hooks that evaluate calls into the analysed crate in place (behind every rule's own hooks)
 DEFAULT_CTX = None          # the fact context of the running check: lets every hook resolve constants and helper functions of the crate
 NONE = ("none",)
 UNIT = ("unit",)
@@ -96,6 +97,10 @@ class Continue(Exception):
 
 class SymEval:
     def __init__(self, hooks, what="function"):
+        if DEFAULT_CTX is not None and FALLBACK_FACTORY is not None and not getattr(hooks, "is_inliner", False):
+            fb = FALLBACK_FACTORY(DEFAULT_CTX)
+            fb.ev = self
+            hooks = Chain(hooks, fb)
         self.h = hooks
         self.what = what
         self.depth = 0
@@ -108,6 +113,7 @@ class SymEval:
     def run(self, f, args):
         env = args if isinstance(args, Scope) else Scope(args)      # the caller's dict holds the top-level names afterwards (out-parameters)
         self.note_ret(f)
+        self.fn_self_ty = f.get("self_ty")
         try:
             return self.block(f["body"], env)
         except Return as r:
@@ -259,6 +265,12 @@ class SymEval:
                     if idx >= len(base[1]):
                         raise Panic("index %d out of range (len %d)" % (idx, len(base[1])))
                     return base[1][idx]
+                if isinstance(idx, tuple) and idx[0] == "rangev":
+                    lo = idx[1] if idx[1] is not None else 0
+                    hi = idx[2] if idx[2] is not None else len(base[1])
+                    if lo > hi or hi > len(base[1]):
+                        raise Panic("slice [%s..%s] out of range (len %d)" % (lo, hi, len(base[1])))
+                    return ("list", base[1][lo:hi])
                 if isinstance(idx, tuple) and idx[0] == "range":
                     rg = idx[1]
                     lo = self.ev(rg[1], env) if rg[1] is not None else 0
@@ -394,6 +406,22 @@ class SymEval:
             if len(args) == 1 and p.split("::")[-2:] in (["String", "from"], ["ToOwned", "to_owned"], ["ToString", "to_string"], ["Clone", "clone"],
                                                          ["Into", "into"], ["From", "from"], ["str", "to_owned"], ["Cow", "Borrowed"], ["Cow", "Owned"]):
                 return args[0]          # conversions that keep the value
+            if p.split("::")[-2:] == ["array", "from_fn"] and len(args) == 1:
+                n_ = None
+                hint = (self.hint.get(id(e)) or "")
+                digits = hint.split(";")[-1] if ";" in hint else ""
+                digits = "".join(ch for ch in digits if ch.isdigit())
+                if not digits:
+                    for nm_ in ("WORD_NUM_BYTES",):
+                        if nm_ in hint:
+                            cv = self.h.resolve_const(nm_)
+                            if isinstance(cv, int):
+                                digits = str(cv)
+                if digits:
+                    n_ = int(digits)
+                if n_ is None:
+                    self.fail("array::from_fn without a known length", e)
+                return ("list", [self.apply(args[0], [i_]) for i_ in range(n_)])
             if p.split("::")[-2:] == ["iter", "once"] and len(args) == 1:
                 return ("list", [args[0]])
             if p.split("::")[-2:] == ["iter", "empty"] and not args:
@@ -541,6 +569,12 @@ class SymEval:
             if isinstance(lo, int) and isinstance(hi, int):
                 return ("list", list(range(lo, hi + 1 if e[3] else hi)), "range")
             self.fail("range with symbolic bounds", e)
+        if k == "range":
+            lo = self.ev(e[1], env) if e[1] is not None else None
+            hi = self.ev(e[2], env) if e[2] is not None else None
+            if (lo is None or isinstance(lo, int)) and (hi is None or isinstance(hi, int)):
+                return ("rangev", lo, (hi + 1 if (e[3] and hi is not None) else hi))       # half-open, None = unbounded
+            self.fail("range with symbolic bounds", e)
         if k == "paren":
             return self.ev(e[1], env)
         if k == "unsafe":
@@ -557,6 +591,9 @@ class SymEval:
                 fields = dict(base[2])
             for fl, x in e[2]:
                 fields[fl] = self.ev(x, env)
+            sb = getattr(self.h, "struct_built", None)
+            if sb is not None:
+                fields = sb(sname, fields)
             return ("struct", sname, fields)
         self.fail("unrecognised expression", e)
 
@@ -972,6 +1009,41 @@ class SymEval:
                 return ("some", items[-1]) if items else NONE
             if m == "get" and isinstance(args[0], int):
                 return ("some", items[args[0]]) if args[0] < len(items) else NONE
+            if m in ("get", "get_mut") and isinstance(args[0], tuple) and args[0] and (args[0][0] == "rangev" or (args[0][0] == "list" and len(args[0]) == 3)):
+                if args[0][0] == "rangev":
+                    lo = args[0][1] if args[0][1] is not None else 0
+                    hi = args[0][2] if args[0][2] is not None else len(items)
+                else:
+                    lo, hi = (args[0][1][0], args[0][1][-1] + 1) if args[0][1] else (0, 0)
+                return ("some", ("list", items[lo:hi])) if lo <= hi <= len(items) else NONE
+            if m in ("first_chunk", "last_chunk") and not args:
+                n_ = None
+                tf = (e[4] or "") if e is not None and len(e) > 4 and isinstance(e[4], str) else ""
+                digits = "".join(ch for ch in tf if ch.isdigit())
+                nm_ = tf.replace(":", "").replace("<", "").replace(">", "").replace(" ", "")
+                if nm_.isdigit():
+                    n_ = int(nm_)
+                elif nm_:
+                    cv = env.get(nm_) if nm_ in env else self.h.resolve_const(nm_)
+                    if isinstance(cv, int):
+                        n_ = cv
+                if n_ is None:
+                    self.fail("%s without a length" % m, e)
+                if len(items) < n_:
+                    return NONE
+                return ("some", ("list", items[:n_] if m == "first_chunk" else items[len(items) - n_:]))
+            if m == "as_chunks" and not args:
+                tf = (e[4] or "") if e is not None and len(e) > 4 and isinstance(e[4], str) else ""
+                digits = "".join(ch for ch in tf if ch.isdigit())
+                n_ = int(digits) if digits else getattr(self, "chunk_hint", None)
+                if not n_:
+                    self.fail("as_chunks without a length", e)
+                full = len(items) // n_
+                return ("tuple", [("list", [("list", items[i * n_:(i + 1) * n_]) for i in range(full)]), ("list", items[full * n_:])])
+            if m == "split_first" and not args:
+                return ("some", ("tuple", [items[0], ("list", items[1:])])) if items else NONE
+            if m == "split_last" and not args:
+                return ("some", ("tuple", [items[-1], ("list", items[:-1])])) if items else NONE
             if m == "skip" and isinstance(args[0], int):
                 return ("list", items[args[0]:])
             if m == "chain" and isinstance(args[0], tuple) and args[0][0] == "list":
@@ -1084,6 +1156,12 @@ class SymEval:
                 return ("default",)
             if m == "ok_or_else":
                 return ("ok", recv[1]) if some else ("err", self.apply(args[0], []))
+            if m == "zip" and len(args) == 1:
+                o = args[0]
+                if some and isinstance(o, tuple) and o and o[0] == "some":
+                    return ("some", ("tuple", [recv[1], o[1]]))
+                if not some or o == NONE:
+                    return NONE
             if m == "or":
                 return recv if some else args[0]
             if m == "or_else":
@@ -1164,6 +1242,10 @@ class SymEval:
                 items[lo:hi] = src[1]
                 env[name] = ("list", items)
                 return UNIT
+        if isinstance(recv, bool) and m == "then" and len(args) == 1:
+            return ("some", self.apply(args[0], [])) if recv else NONE
+        if isinstance(recv, bool) and m == "then_some" and len(args) == 1:
+            return ("some", args[0]) if recv else NONE
         if m in ("clone", "to_owned", "into", "as_str", "as_ref", "borrow", "to_string") and not args:
             return recv
         self.fail("method call", e)
@@ -1422,6 +1504,76 @@ def _free_fns(ctx):
         for it in ctx.rspirv.items(m, "fn"):
             out.setdefault(it["name"], []).append(it)
     return out
+
+
+class Chain:
+    """the rule's own hooks first; what they do not implement goes to the fallback"""
+
+    def __init__(self, first, second):
+        self.__dict__["first"] = first
+        self.__dict__["second"] = second
+
+    def __getattr__(self, name):
+        f = self.__dict__["first"]
+        if hasattr(f, name):
+            return getattr(f, name)
+        return getattr(self.__dict__["second"], name)
+
+    def __setattr__(self, name, value):
+        setattr(self.__dict__["first"], name, value)
+
+    def _both(self, name, *a):
+        r = getattr(self.first, name)(*a)
+        if r is NotImplemented:
+            r = getattr(self.second, name)(*a)
+        return r
+
+    def path(self, p):
+        return self._both("path", p)
+
+    def field(self, base, name, e):
+        return self._both("field", base, name, e)
+
+    def index(self, base, idx, e):
+        return self._both("index", base, idx, e)
+
+    def binary(self, op, a, b, e):
+        return self._both("binary", op, a, b, e)
+
+    def call(self, p, args, e):
+        return self._both("call", p, args, e)
+
+    def mcall(self, recv, m, args, e, ev):
+        return self._both("mcall", recv, m, args, e, ev)
+
+    def assign(self, lhs, v, env, ev):
+        return self._both("assign", lhs, v, env, ev)
+
+    def assignop(self, lhs, op, v, env, ev):
+        return self._both("assignop", lhs, op, v, env, ev)
+
+    def cast(self, v, ty, e):
+        return self._both("cast", v, ty, e)
+
+    def match_lit(self, v, lit):
+        return self._both("match_lit", v, lit)
+
+    def match_path(self, v, path):
+        return self._both("match_path", v, path)
+
+    def match_ts(self, v, pat, env, ev):
+        return self._both("match_ts", v, pat, env, ev)
+
+    def resolve_const(self, path):
+        return self._both("resolve_const", path)
+
+    def resolve_fn(self, path):
+        r = self.first.resolve_fn(path)
+        return r if r is not None else self.second.resolve_fn(path)
+
+    def struct_built(self, name, fields):
+        sb = getattr(self.first, "struct_built", None)
+        return sb(name, fields) if sb is not None else self.second.struct_built(name, fields)
 
 
 class Hooks:
